@@ -13,6 +13,7 @@
 //     CRASHIN id <query in progress> sig=..  and  CRASH id sig= code=   when the implementation kills the child
 #include "soplex.h"
 #include "common.hpp"
+#include <sstream>
 #include <fstream>
 #include <map>
 #include <csignal>
@@ -395,13 +396,14 @@ static void runOne(const CaseLP& L, const std::vector<std::string>& t)
       SP s;
       quiet(s);
       bool ok = true;
-      std::string mode = "solve", brows, bcols;
+      std::string mode = "solve", brows, bcols, chg;
 
       for(size_t k = 2; k < t.size(); k++)
       {
          if(t[k].compare(0, 5, "mode=") == 0) mode = t[k].substr(5);
          else if(t[k].compare(0, 6, "brows=") == 0) brows = t[k].substr(6);
          else if(t[k].compare(0, 6, "bcols=") == 0) bcols = t[k].substr(6);
+         else if(t[k].compare(0, 4, "chg=") == 0) chg = t[k].substr(4);
          else ok = setParam(s, t[k]) && ok;
       }
 
@@ -422,7 +424,42 @@ static void runOne(const CaseLP& L, const std::vector<std::string>& t)
          s.setBasis(rs.data(), cs.data());
       }
 
-      runQueries(s, L, id + (ok ? "" : "!badparam"));
+      // coefficient changes between the solve / setBasis and the queries: chg=i:j:value,i:j:value (the queries are then about
+      // the basis the solver reports for the CHANGED LP)
+      CaseLP L2 = L;
+
+      if(!chg.empty())
+      {
+         std::stringstream cs(chg);
+         std::string item;
+
+         while(std::getline(cs, item, ','))
+         {
+            size_t a = item.find(':'), b = item.find(':', a + 1);
+
+            if(a == std::string::npos || b == std::string::npos) continue;
+
+            int i = atoi(item.substr(0, a).c_str()), j = atoi(item.substr(a + 1, b - a - 1).c_str());
+            std::string v = item.substr(b + 1);
+
+            if(i < 0 || i >= s.numRows() || j < 0 || j >= s.numCols()) continue;
+
+            s.changeElementReal(i, j, num(v));
+            bool found = false;
+
+            for(auto& e : L2.rows[i])
+               if(e.first == j)
+               {
+                  e.second = v;
+                  found = true;
+               }
+
+            if(!found)
+               L2.rows[i].push_back({j, v});
+         }
+      }
+
+      runQueries(s, L2, id + (ok ? "" : "!badparam"));
    }
    catch(const std::exception& e)
    {
